@@ -111,7 +111,22 @@ fn dump(g: &Guarded, r: Resources<'_>) -> String {
 	out
 }
 
+/// The tree printer embeds `Display` of `pelite::Error` for entries it cannot read; the wording of those
+/// messages is nobody's contract, so each message is replaced by the canonical token `<E:Kind>` (the model
+/// prints the same token) before the text is digested.
+fn canon_errors(s: &str) -> String {
+	use pelite::Error::*;
+	let mut all: Vec<(String, &'static str)> = [Null, Bounds, ZeroFill, Unmapped, Misaligned, BadMagic, PeMagic, Insanity, Invalid, Overflow, Encoding, Aliasing]
+		.iter().map(|&e| (format!("{}", e), errname(e))).collect();
+	all.sort_by(|a, b| b.0.len().cmp(&a.0.len()));
+	let mut out = s.to_string();
+	for (text, name) in all {
+		if !text.is_empty() { out = out.replace(&text, &format!("<E:{}>", name)); }
+	}
+	out
+}
 fn text_s(s: &str) -> String {
+	let s = &canon_errors(s);
 	format!("{} lines={} len={}", digest(s.as_bytes()), s.bytes().filter(|&b| b == b'\n').count(), s.len())
 }
 
